@@ -1,3 +1,4 @@
+import Autog.Lemmas.BlockWide
 import Autog.Json
 import Autog.Model.Pre
 import Autog.Model.Phase1
@@ -108,6 +109,7 @@ def tfunLayout (cfg : Cfg) (es : InEdges) (comps : List (List (Int × G))) (real
             | [] => pure ()
         out := out ++ [("K:layersWF", layersWFb b, "a node occurs twice in the layer lists or does not exist")]
         if cfg.p4 == 0 then
+          out := out ++ [("K:layered", layeredWFb b, "the state handed to SinkColoring is not properly layered (in-edges, band order of the layer lists)")]
           match scBlocks b with
           | .ok (bw, roots) => out := out ++ [("K:sc-blockwidth", blockWideb b bw roots, "a block is narrower than one of its nodes")]
           | .error e => out := out ++ [("K:sc-blockwidth", false, s!"model error {e}")]
